@@ -25,7 +25,9 @@ import (
 	"sync"
 	"time"
 
+	"github.com/cube2222/octosql/aggregates"
 	"github.com/cube2222/octosql/execution"
+	"github.com/cube2222/octosql/execution/nodes"
 	"github.com/cube2222/octosql/octosql"
 
 	"verif/harness/internal/enum"
@@ -738,6 +740,69 @@ func init() {
 		}
 		pairs, triples := c09Laws(r, agg, rel, "Compare", "Hash")
 		r.Eval(evals + pairs + triples)
+
+		// ---- consumers of the order: each must agree with the sign of Compare on every pair of the universe ----
+		// (group keys / join keys: execution.CompareValueSlices; min, max, array_agg and count distinct keep their values in trees)
+		{
+			l := newC09Local()
+			var cevals int64
+			minmax := func(proto func() nodes.Aggregate, a, b octosql.Value) (v octosql.Value, pan interface{}) {
+				defer func() {
+					if p := recover(); p != nil {
+						pan = p
+					}
+				}()
+				g := proto()
+				g.Add(false, a)
+				g.Add(false, b)
+				return g.Trigger(), nil
+			}
+			for i := 0; i < n; i++ {
+				for j := 0; j < n; j++ {
+					if (nan[i] || nan[j]) && nanDefect {
+						continue
+					}
+					c := int(cmp[i*n+j])
+					lt, pan := c09SafeLess([]octosql.Value{U[i]}, []octosql.Value{U[j]})
+					cevals++
+					if pan == nil && lt != (c < 0) {
+						i, j := i, j
+						l.hit("C09/consumer-disagrees-with-Compare/CompareValueSlices", func() (string, c09Case) {
+							return fmt.Sprintf("Compare(%s, %s) = %d but CompareValueSlices([a],[b]) (group and join keys) says less=%v", strs[i], strs[j], c, lt),
+								c09Case{Law: "consumers agree with the sign of Compare", Values: []string{strs[i], strs[j]}, Got: fmt.Sprint(lt), Want: fmt.Sprint(c < 0)}
+						})
+					}
+					if U[i].TypeID != U[j].TypeID || c >= 0 {
+						continue
+					}
+					// a < b: min = a, max = b, count distinct = 2, array_agg keeps both
+					for _, ag := range []struct {
+						name  string
+						proto func() nodes.Aggregate
+						want  string
+					}{
+						{"min", aggregates.NewMinPrototype(), strs[i]}, {"max", aggregates.NewMaxPrototype(), strs[j]},
+						{"count_distinct", aggregates.NewDistinctPrototype(aggregates.NewCountPrototype()), c09Str(octosql.NewInt(2))},
+					} {
+						v, pan := minmax(ag.proto, U[i], U[j])
+						cevals++
+						if pan != nil {
+							continue
+						}
+						if got := c09Str(v); got != ag.want {
+							i, j, ag := i, j, ag
+							l.hit("C09/consumer-disagrees-with-Compare/"+ag.name, func() (string, c09Case) {
+								return fmt.Sprintf("Compare(%s, %s) = %d (a < b) but %s over {a, b} gives %s, expected %s", strs[i], strs[j], c, ag.name, got, ag.want),
+									c09Case{Law: "consumers agree with the sign of Compare", Values: []string{strs[i], strs[j]}, Got: got, Want: ag.want}
+							})
+						}
+					}
+				}
+			}
+			agg.flush(r, l)
+			r.Eval(cevals)
+			r.Extra["consumer_agreement_evaluations"] = cevals
+		}
 
 		// ---- slices: CompareValueSlices / HashManyValues ----
 		negZero := math.Copysign(0, -1)
